@@ -112,6 +112,7 @@ def run_batch(prop, tier, seed, procs=None, runs=None, wall=None, minimise=True,
         cfg["wall"] = wall
     procs = procs or int(os.environ.get("VERIF_PROCS", "0")) or min(16, os.cpu_count() or 4)
     kernel.sweep_stale_scratch()
+    _clear_old_replays(prop, seed)
     t0 = kernel.wall()
     n = cfg["runs"]
     chunk = max(1, min(8, n // (procs * 4) or 1))
@@ -223,6 +224,14 @@ def run_batch(prop, tier, seed, procs=None, runs=None, wall=None, minimise=True,
             )
         )
     return rc, agg, ev
+
+
+def _clear_old_replays(prop, seed):
+    d = os.path.join(kernel.VERIF_DIR, "replays")
+    if os.path.isdir(d):
+        for n in os.listdir(d):
+            if n.startswith("%s-seed%d-" % (prop, seed)):
+                os.unlink(os.path.join(d, n))
 
 
 def _merge(agg, p):
@@ -357,6 +366,9 @@ def main(argv=None):
     ap.add_argument("--no-minimise", action="store_true")
     ap.add_argument("--no-evidence", action="store_true")
     ap.add_argument("--quiet", action="store_true")
+    ap.add_argument("--mode", default="determinism", choices=["determinism", "sensitivity", "all"], help="selftest mode")
+    ap.add_argument("--props", default=None, help="selftest: comma-separated property ids")
+    ap.add_argument("--only", default=None, help="selftest sensitivity: comma-separated seeded ids")
     a = ap.parse_args(argv)
     kernel.ensure_env()
     if a.prop == "selftest":
